@@ -505,7 +505,7 @@ fn as_pair(ctx: &mut Ctx, a: &AsCase, b: &AsCase) {
 
 fn run_as(ctx: &mut Ctx) {
     let mut rng = ctx.rng("as");
-    let batches = ctx.stage_budget((12_000, 400_000), 2_000, 3, 0);
+    let batches = ctx.stage_budget((12_000, 1_200_000), 2_000, 3, 0);
     let batch = if ctx.stage == Stage::Miri { 3 } else { 14 };
     for _ in 0..batches {
         let mut cases = Vec::new();
